@@ -125,6 +125,36 @@ pub enum Op {
     Descriptor { kind: u8 },
     /// Read a key `n` times (drives seek-triggered compaction).
     GetMany { k: usize, n: u32 },
+    /// Scheduling directive, not a database call: hold this client back until another task reaches
+    /// its `nth` scheduling point of a kind in `mask` (bit k = `rt::YieldKind` k), park that task
+    /// there and run this client's next operation(s) until it blocks (`rt::align_request`).
+    Align { mask: u16, nth: u32 },
+}
+
+/// Insert `Align` directives in front of operations whose start is worth lining up with a point
+/// inside the background thread or another client (drawn from a stream of its own, so the rest of
+/// the plan is what it would have been without them).
+pub fn add_aligns(rng: &mut Rng, ops: &mut Vec<Op>, one_in: u64) {
+    let mut out = Vec::with_capacity(ops.len() + 4);
+    for op in ops.drain(..) {
+        let racy = matches!(
+            op,
+            Op::Get { .. } | Op::GetSnap { .. } | Op::Snap { .. } | Op::Release { .. } | Op::IterOpen { .. } | Op::IterClose { .. } | Op::CompactRange { .. } | Op::Reopen { .. } | Op::Flush | Op::Descriptor { .. } | Op::Put { .. } | Op::Batch { .. } | Op::SnapDump { .. } | Op::IterDump { .. }
+        );
+        if racy && rng.chance(1, one_in) {
+            out.push(gen_align(rng));
+        }
+        out.push(op);
+    }
+    *ops = out;
+}
+
+pub fn gen_align(rng: &mut Rng) -> Op {
+    // database mutex released | any guard drop | unlocked_fair entry/exit | filesystem call | hook |
+    // any point | any release of the database mutex
+    let mask = *rng.pick(&[1u16 << 8, 1 << 8, 1 << 8, 1 << 7, 0b110, 0b110, 1 << 3, 1 << 4, 0x1ff, (1 << 8) | 0b110]);
+    let nth = *rng.pick(&[1u32, 1, 2, 2, 3, 4, 5, 7, 10, 16]);
+    Op::Align { mask, nth }
 }
 
 #[derive(Serialize, Deserialize, Clone, Debug, PartialEq)]
